@@ -27,7 +27,7 @@ func init() {
 			"{terminal sink, take0, take1, take0 passing on a wrapped connection that swaps a and b, two nested subroutes}, stream over {a,b} of length<=4, composition of the stream into segments); " +
 			"exhaustive for the stated number of routes, plus seeded random larger instances (<=6 routes, nesting<=3, streams<=48 bytes) at route level and through the App; " +
 			"oracle = trace rules R1-R6 with set-valued (evaluation-order-insensitive) matcher-set verdicts. non-trivial = at least one handler or fallback event; " +
-			"distinct = hash(config, stream, composition)",
+			"distinct = hash(config, stream, composition). random route lists may hold an empty matcher set (matches everything once reached) at any position",
 		Assumptions: []string{
 			"scripted matchers are N-monotone pure functions of the prefix, as C06 demands of real matchers",
 			"matching timeout is far away (30 s); timeouts are C05",
